@@ -2,7 +2,7 @@
 in a scratch directory, collecting TLC-emitted cases, evidence files, known findings and verdicts."""
 import json, os, re, shutil, subprocess, sys, time, hashlib
 
-VERIF = "/verif"
+VERIF = os.path.dirname(os.path.dirname(os.path.abspath(__file__)))   # /verif, or a snapshot of it
 SPEC = os.path.join(VERIF, "spec")
 HARNESS = os.path.join(VERIF, "harness")
 HBIN = os.path.join(HARNESS, "bin")
